@@ -107,6 +107,7 @@ class LogView:
         self.dropped_at = None
         self.unlocked_at = None
         self.refused_cbs = set()
+        self.inflight = 0
         self.purges = []                  # accepted purges: (upto log id, journal offset just behind the purge record)
         self.closing_last = {}            # chunk id -> last log id recorded when it was closed (from stat results)
         self.live = None                  # liveness of C08: [upto, flushed?, idle after that flush?] while no write is accepted
@@ -153,6 +154,9 @@ class LogView:
                         self.live[2] = True
                 elif k == "call":
                     self.last_call = t[2:]
+                    # records the call in progress may already have journalled when a snapshot
+                    # is taken inside it
+                    self.inflight = ((len(t) - 3) // 3 if t[2] == "A" else 1) if t[2] in ("V", "A", "T", "P", "C", "U") else 0
                     if t[2] == "F" and self.live:
                         self.live[1] = True
                     if t[2] == "F":
@@ -180,6 +184,7 @@ class LogView:
                         n = (len(self.last_call) - 1) // 3 if self.last_call[0] == "A" else 1
                         self.nwrites += n
                     self.last_call = None
+                    self.inflight = 0
                 elif k == "cb":
                     cb, ok = int(t[2]), t[3] == "ok"
                     self.check_ack(i, cb, ok)
@@ -188,7 +193,7 @@ class LogView:
                         self.acked_writes = max(self.acked_writes, self.flush_nwrites.get(cb, 0))
                 elif k == "snap":
                     files = dict(p_recover.parse_disk("disk " + e.split("snap disk", 1)[1]))
-                    self.snaps.append((i, files, dict(self.synced), self.acked_writes, self.nwrites))
+                    self.snaps.append((i, files, dict(self.synced), self.acked_writes, self.nwrites + self.inflight))
                 elif k == "flock" and t[2] == "unlock":
                     self.unlocked_at = i
                 elif k == "dropped":
@@ -281,7 +286,7 @@ def analyse(ctx, prop, cases, logs, fault_free):
 
 
 # ------------------------------------------------------------------ schedule generation
-def gen_schedule(rnd, nops, cfg, faults=0, snaps=False, small_cache=False, reads=False, max_batch=3, purge_heavy=False):
+def gen_schedule(rnd, nops, cfg, faults=0, snaps=False, small_cache=False, reads=False, max_batch=3, purge_heavy=False, autosnap=False):
     ops, st, sim = gen.gen_history(rnd, nops, p_reject=0.08, reads=reads, max_batch=max_batch,
                                    flush_every=rnd.choice([0.2, 0.35, 0.5]), index_limit_rejects=True)
     items = []
@@ -312,6 +317,9 @@ def gen_schedule(rnd, nops, cfg, faults=0, snaps=False, small_cache=False, reads
     items += ["F 1", "wi"]
     if snaps:
         items.append("snap")
+    if autosnap:
+        # a snapshot after every create / write of the caller thread: crash points inside calls
+        items.insert(0, "autosnap")
     return "TRACE %s | %s" % (cfg, " ; ".join(items)), st
 
 
@@ -474,7 +482,7 @@ def run_crash(ctx, prop):
     cases, cfgs = [], []
     for i in range(n):
         cfg = gen.rand_cfg(rnd, big_cache=True, trunc=1)
-        line, st = gen_schedule(rnd, rnd.randint(4, ctx.scale(25, 50)), cfg, faults=0, snaps=True)
+        line, st = gen_schedule(rnd, rnd.randint(4, ctx.scale(25, 50)), cfg, faults=0, snaps=True, autosnap=(i % 2 == 0))
         cases.append(line)
         cfgs.append(cfg)
     cases = p_seq.corpus(prop) + cases
@@ -572,6 +580,20 @@ def run_C08(ctx):
         line, st = gen_schedule(rnd, rnd.randint(8, ctx.scale(35, 70)), cfg, faults=faults, snaps=True, reads=True)
         ctx.count("purges", st["purges"])
         cases.append(line)
+    # a removal postponed by a failed sync meets a second removal that arrives in the very
+    # batch whose sync succeeds again: the order of the unlinks (oldest first)
+    for j in range(ctx.scale(16, 120)):
+        R = rnd.choice([3, 4, 4, 5, 6])
+        cfg = "100000 1073741824 %d 1073741824 1 64" % R
+        k = rnd.choice([2, 2, 3])                     # closed chunks before the purges
+        n1 = k * (R - 1)
+        items = ["A 1 %d x%02x" % (i, i) for i in range(n1)] + ["F 1", "wi"]
+        a = rnd.randint(1, k - 1) * (R - 1) - 1       # last entry of one of the closed chunks, not the last one
+        items += ["P 1 %d" % a, "fault sync %d" % rnd.choice([0, 0, 0, 1]), "F 1", "wi"]
+        items += ["P 1 %d" % (n1 - 1), "F 1", "snap"]
+        items += [rnd.choice(["w 1", "w 2", "w 3"]), "snap"] * rnd.randint(1, 5) + ["wi", "snap", "G"]
+        cases.append("TRACE %s | %s" % (cfg, " ; ".join(items)))
+        ctx.count("postponed_removal_schedules")
     cases = p_seq.corpus("C08") + cases
     cfgs = [c.split("|")[0].replace("TRACE", "").strip() for c in cases]
     logs, rep = trace_check(ctx, "c08", cases)
@@ -779,10 +801,20 @@ def run_C07(ctx):
                     out.append("DI")
         if have_snap:
             out.append("DI")
+        # last: three reader threads against a thread that keeps draining the cache
+        out.append("RR %d" % rnd.choice([20, 60]))
         cases.append(head + "| " + " ; ".join(out))
     impl, model = p_seq.seq_run(ctx, cases)
     spec = p_seq.spec_lines(cases, ctx.wd)
     bad = 0
+    for c, a in zip(cases, impl):
+        fa = p_seq.fields(a)
+        st = [x for x in fa if x.startswith("stress ")]
+        if st and st[0] != "stress ok":
+            bad += 1
+            if bad <= 3:
+                ctx.fail("oracle", "C07 oracle: concurrent readers saw other results while another thread drained the evictable cache (nothing was written): " + st[0][:600],
+                         dict(kind="seq", case=c, detail=st[0][:2000]))
     # a snapshot iterated later returns what it returned when it was taken
     for c, a in zip(cases, impl):
         fa = p_seq.fields(a)
